@@ -167,6 +167,16 @@ def _literal_term(node):
         if any(k is None for k in ks) or any(v is None for v in vs):
             return None
         return ('dict', tuple(zip(ks, vs)))
+    if isinstance(node, ast.UnaryOp) and isinstance(node.op, (ast.USub, ast.UAdd)):
+        inner = _literal_term(node.operand)
+        if inner is not None and inner[0] in ('call', 'attr'):
+            return ('unop', '-' if isinstance(node.op, ast.USub) else '+', inner)
+    if isinstance(node, ast.Call) and isinstance(node.func, ast.Name) and node.func.id in ('float', 'int', 'str') \
+            and len(node.args) == 1 and not node.keywords and isinstance(node.args[0], ast.Constant):
+        return ('call', ('name', node.func.id), (('const', node.args[0].value),), ())      # float('inf') and the like
+    if isinstance(node, ast.Attribute) and isinstance(node.value, ast.Name) and node.value.id in ('math', 'np', 'numpy') \
+            and node.attr in ('inf', 'pi', 'e', 'nan'):
+        return ('attr', ('name', node.value.id), node.attr)
     if isinstance(node, ast.Call) and isinstance(node.func, ast.Name) and node.func.id in ('frozenset', 'set', 'tuple') \
             and len(node.args) == 1 and not node.keywords:
         inner = _literal_term(node.args[0])
@@ -208,6 +218,22 @@ def _literal_seq(t, limit=16):
     if t[0] in ('tuple', 'list') and 0 < len(t[1]) <= limit and all(lit(x) for x in t[1]):
         return list(t[1])
     return None
+
+
+def _positional(sig, args, kws):
+    """f(a, y=2, x=1) with signature (w, x, y) -> f(a, 1, 2): keyword arguments move to their positions as long as the
+    positions are filled without gap; whatever cannot be placed stays a keyword"""
+    args = list(args)
+    kw = dict(kws)
+    if len(kw) != len(kws) or len(args) > len(sig):
+        return args, kws
+    for name in sig[len(args):]:
+        if name in kw:
+            args.append(kw.pop(name))
+        else:
+            break
+    rest = tuple((k, v) for k, v in kws if k in kw)
+    return args, rest
 
 
 def _mutable_literal(t):
@@ -272,7 +298,7 @@ def _expression_like(fd):
 def _forkable(fd):
     """can the body be run by the statement walker (no generators / nested class tricks)?"""
     for n in ast.walk(fd):
-        if isinstance(n, (ast.Yield, ast.YieldFrom, ast.Await, ast.Global, ast.Nonlocal, ast.Try, ast.With)):
+        if isinstance(n, (ast.Yield, ast.YieldFrom, ast.Await, ast.Global, ast.Nonlocal)):
             return False
     return True
 
@@ -539,7 +565,13 @@ class SymExec(object):
                 else:
                     args.append(E(a))
             kws = tuple((kw.arg, E(kw.value)) for kw in n.keywords)
+            if kws and all(k is not None for k, _ in kws) and not any(a_[0] == 'star' for a_ in args):
+                sig = self.signature(f)
+                if sig is not None:
+                    args, kws = _positional(sig, args, kws)
             t = ('call', f, tuple(args), kws)
+            if f == ('name', 'dict') and not args and kws and all(k is not None for k, _ in kws):
+                return ('dict', tuple((('const', k), v) for k, v in kws))      # dict(a=1) is {'a': 1}
             if f == ('name', 'list') and len(args) == 1 and not kws and args[0][0] in ('genexp', 'listcomp'):
                 return ('listcomp',) + args[0][1:]
             if f[0] == 'attr' and f[2] == 'get' and f[1][0] == 'dict' and 1 <= len(args) <= 2 and not kws \
@@ -740,7 +772,44 @@ class SymExec(object):
             return None
         return fd
 
-    def imported(self, name):
+    def signature(self, f):
+        """positional parameter names of the repository function / method a call target denotes (receiver removed), for
+        turning keyword arguments into their positional spelling; None when the target is not a known definition"""
+        fd = None
+        drop = 0
+        if f[0] == 'func':
+            fd = _FUNC_BY_ID.get(f[2])
+        elif f[0] == 'name':
+            scope = getattr(self._stack[-1], '_parent', None)
+            while scope is not None and fd is None:
+                if isinstance(scope, (ast.FunctionDef, ast.Module)):
+                    for s_ in scope.body:
+                        if isinstance(s_, ast.FunctionDef) and s_.name == f[1]:
+                            fd = s_
+                scope = getattr(scope, '_parent', None)
+            if fd is None:
+                fd = self.imported(f[1])
+        elif f[0] == 'attr' and f[1][0] == 'name':
+            owner = None
+            if f[1][1] in ('self', 'cls') and self.cls is not None:
+                owner = self.cls
+            elif self.modtree is not None:
+                for s_ in self.modtree.body:
+                    if isinstance(s_, ast.ClassDef) and s_.name == f[1][1]:
+                        owner = s_
+                if owner is None:
+                    owner = self.imported(f[1][1], kinds=(ast.ClassDef,))
+            if owner is not None:
+                for s_ in owner.body:
+                    if isinstance(s_, ast.FunctionDef) and s_.name == f[2]:
+                        fd = s_
+                if fd is not None and 'staticmethod' not in [src(d) for d in fd.decorator_list]:
+                    drop = 1
+        if fd is None or fd.args.vararg is not None or fd.args.posonlyargs:
+            return None
+        return [a.arg for a in fd.args.args][drop:]
+
+    def imported(self, name, kinds=(ast.FunctionDef,)):
         """a function of another module of the repository bound here by `from pkg.mod import name [as alias]`"""
         modtree = self.modtree
         pym = getattr(modtree, '_pymodule', None)
@@ -758,7 +827,7 @@ class SymExec(object):
                                 except Exception:
                                     return None
                                 for d in other.tree.body:
-                                    if isinstance(d, ast.FunctionDef) and d.name == al.name:
+                                    if isinstance(d, kinds) and d.name == al.name:
                                         return d
                         return None
         return None
